@@ -17,6 +17,80 @@ fn extremes() -> Vec<i128> {
     vec![0, 1, -1, I53, -I53, I53 - 1, -(I53 - 1), I53 + 1, -(I53 + 1), i64::MAX as i128, i64::MIN as i128, (i64::MAX as i128) + 1, (i64::MIN as i128) - 1, 1i128 << 64]
 }
 
+/// regular-expression patterns that stress the pattern pipeline (inline flags, comments, classes, counted repetition,
+/// constructs the engine rejects) plus ladders over every depth / length 1..=300 of six nesting shapes; each pattern
+/// as a literal and from the document, through match and search: evaluation must return Ok
+pub fn regex_patterns(_run: &Run) -> Acc {
+    use rayon::prelude::*;
+    let mut pats: Vec<String> = [
+        "(?x)a#b", "(?x)a # c", "(?x)a#", "(?x) a b ", "(?i)a", "(?s).", "(?m)^a$", "(?-u)a", "(?U)a*", "(?P<n>a)", "(?<n>a)", "a#b", "#", "(?#c)a", "\\p{L}", "\\pL+", "\\d+", "\\w", "\\b", "\\B", "\\A", "\\z",
+        "a{2,}", "a{,2}", "a{1000}", "a{100000}", "(a{100}){100}", "((a{30}){30}){30}", "[[:alpha:]]", "[a&&b]", "[a--b]", "[a~~b]", "\\x41", "\\u0041", "\\u{41}", "\\Q..\\E", "(?=a)", "(?!a)", "(?<=a)", "\\1", "(a)\\1",
+        "\\", "\\k<n>", "[\\]", "[]", "[^]", "[]a]", "(", ")", "a)|(b", "a)(b", "(?", "(?x", "(?x)", "*", "+", "?", "{", "}", "{1}", "a{1", "a{1,", "|", "||", "^*", "$+", "(?x)\n#", "(?x)(a#)\nb)", "\u{0}", "\n", ".", "\\n", "\\/",
+        "\\-", "\\e", "(?x)a#)", "(?x:a#b)", "(?i:a)b", "(?x)[#]", "a(?x)#b", "\u{e9}+", "[\u{10000}-\u{10ffff}]", "\\u{110000}", "\\x{FFFFFFFF}", ".{0,4294967295}", "a{4294967296}",
+    ]
+    .iter()
+    .map(|s| s.to_string())
+    .collect();
+    for d in 1..=300usize {
+        pats.push(format!("{}a{}", "(".repeat(d), ")".repeat(d)));
+        pats.push(format!("{}a{}", "(?:".repeat(d), ")".repeat(d)));
+        pats.push(format!("{}a{}", "(".repeat(d), ")*".repeat(d)));
+        pats.push(format!("{}a{}", "[".repeat(d), "]".repeat(d)));
+        pats.push(format!("a{}", "|a".repeat(d)));
+        pats.push(format!("{}a", "(?i)".repeat(d)));
+    }
+    for d in [15usize, 16, 17, 255, 256, 257, 4095, 4096, 65536] {
+        pats.push("a".repeat(d));
+        pats.push(format!("a{{{}}}", d));
+    }
+    let subjects = json!(["a", "ab", "", "a#b", "\u{e9}", 1, null]);
+    pats.par_iter()
+        .map(|p| {
+            let mut acc = Acc::new();
+            let doc = json!({"p": p, "s": subjects});
+            let am = AddrMap::new(&doc);
+            for f in ["match", "search"] {
+                for q in [format!("$.s[?{}(@,$.p)]", f), format!("$.s[?{}(@,{})]", f, crate::model::render::quote_single(p)), format!("$.s[?!{}(@,{})]", f, crate::model::render::quote_double(p))] {
+                    acc.evals += 1;
+                    let o = crate::watch::guarded(|| json!({"query": q, "doc": doc}).to_string(), || imp::run_with_path(&q, &doc, &am));
+                    match o {
+                        ImplOut::Ok(v) => {
+                            if !v.is_empty() {
+                                acc.nontrivial += 1;
+                            }
+                        }
+                        other => {
+                            // a literal the parser rejects is not this family's business (C06)
+                            if imp::parse_ok(&q) == Some(false) {
+                                acc.bump("skipped_rejected_by_parser", 1);
+                                continue;
+                            }
+                            acc.viol(
+                                format!("{} with the pattern {:?}: evaluation must return Ok (an unusable pattern makes the test false), got {}", q, if p.len() > 80 { format!("{}... ({} bytes)", &p[..60], p.len()) } else { p.clone() }, other.short()),
+                                json!({"kind": "eval-ok", "class": "regular-expression pattern pipeline", "query": q, "doc": doc}),
+                            );
+                        }
+                    }
+                }
+            }
+            acc
+        })
+        .reduce(Acc::new, Acc::merge)
+}
+
+pub fn replay_eval_ok(case: &Value, _run: &Run) -> Acc {
+    let mut acc = Acc::new();
+    let q = case["query"].as_str().unwrap_or("$");
+    let doc = &case["doc"];
+    let am = AddrMap::new(doc);
+    let o = imp::run_with_path(q, doc, &am);
+    println!("query    : {}\ndocument : {}\nobserved : {}", q, doc, o.short());
+    if !matches!(o, ImplOut::Ok(_)) {
+        acc.viol(format!("{} on {}: evaluation must return Ok, got {}", q, doc, o.short()), case.clone());
+    }
+    acc
+}
+
 pub fn cube(run: &Run) -> Acc {
     let ex = extremes();
     let docs: Vec<Value> = [0usize, 1, 2, 5].iter().map(|n| Value::Array((0..*n).map(|i| json!(i)).collect())).collect();
